@@ -14,7 +14,7 @@ $H/build.sh $P   # (re)writes the per-property overlay o-$P.json
 (cd $R && go build -race -overlay=$H/overlay/o-$P.json -tags verif -o $BIN ./verifdrive)
 LOG=$V/work/$P.race.$$
 rm -f $LOG.*
-GORACE="halt_on_error=0 log_path=$LOG" $BIN -prop $P -tier quick -seed ${VERIF_SEED:-1} > $V/work/$P.race.lines || true  # exit code 66 = races were reported
+VERIF_RACE=1 GORACE="halt_on_error=0 log_path=$LOG" $BIN -prop $P -tier quick -seed ${VERIF_SEED:-1} > $V/work/$P.race.lines || true  # exit code 66 = races were reported
 n=$(wc -l < $V/work/$P.race.lines)
 bad=$($V/lean/.lake/build/bin/driver < $V/work/$P.race.lines | grep -vc '^ok ' || true)
 known=0
